@@ -202,4 +202,7 @@ var CaseVariants = strings.Fields(`Float FLOAT If IF While Int INT Uint Bool Voi
  Register Cbuffer Groupshared Static Const Inline Namespace Template Class Typedef Unsigned`)
 
 // NonASCII are WGSL-legal identifiers outside ASCII (XID_Start XID_Continue*).
-var NonASCII = []string{"é", "ß", "Δ", "π", "변수", "変数", "переменная", "μ1", "ñ_", "aé", "éa", "é1", "_é", "ä_1", "Ω_", "ǅ", "ℕ", "𝓍"}
+var NonASCII = []string{"é", "ß", "Δ", "π", "변수", "変数", "переменная", "μ1", "ñ_", "aé", "éa", "é1", "_é", "ä_1", "Ω_", "ǅ", "ℕ", "𝓍",
+	// a non-ASCII letter followed by `_`, by another non-ASCII letter, after `_`; whole words (the sanitiser writes each
+	// code point as u<hex>_ and has to collapse / trim the separators)
+	"θ_max", "Δ_t", "x_θ", "θ_", "_θ", "θφ", "время", "位置", "θ2", "maxθ_min", "φ_0", "Δ_Δ", "α_β_γ", "ж_", "数_値", "θ__x", "_ж1", "x__θ", "θ_1", "λλ_"}
